@@ -50,6 +50,8 @@ pub struct HState {
 	pub ops: Vec<OpRec>,
 	/// tickets kept for probing from inside marker closures: (op idx, prio, ticket)
 	pub probe_tickets: Vec<(usize, Prio, Ticket)>,
+	/// tickets of the operations that may spawn (probed from inside the spawn hook)
+	pub spawn_tickets: Vec<(usize, Ticket)>,
 	pub handle_dropped: bool,
 	pub dead_seen: bool,
 	pub violations: Vec<(String, String)>,
@@ -174,6 +176,19 @@ fn send_op(job: &Job, sc: &Sc, idx: usize, op: Op, sender: u8, hook_count: &Arc<
 				let n = hc.fetch_add(1, Ordering::SeqCst) + 1;
 				cmd.command_mut().env("VERIF_HOOK", n.to_string());
 				simchild::note("hook", n as i64, 0, state_str(ctx));
+				// the hook runs on behalf of a control that is about to spawn: that control
+				// cannot have completed yet, so at least one spawning operation sent so far
+				// still has an open ticket
+				let tickets: Vec<(usize, Ticket)> = hs(|h| h.spawn_tickets.clone());
+				if !tickets.is_empty() && tickets.iter().all(|(_, t)| ticket_ready(t)) {
+					let ops = tickets.iter().map(|(i, _)| i.to_string()).collect::<Vec<_>>().join(",");
+					hs(|h| {
+						h.violations.push((
+							"C09/ticket-resolved-before-its-spawn".into(),
+							format!("spawn hook call #{n}: the tickets of all spawning operations sent so far (script positions {ops}) have already resolved, although the spawn this hook call belongs to has not happened yet"),
+						))
+					});
+				}
 			})
 		}
 		Op::UnsetHook => job.unset_spawn_hook(),
@@ -370,6 +385,9 @@ async fn body(sc: &Sc, mons: &mon::Set) -> Obs {
 				let log_pos = simchild::with(|w| w.log.len() - 1);
 				hs(|h| h.ops.push(OpRec { idx, op, sender: s, log_pos, sent_at: now, sent_to_dead: dead, polls: dex::rt::polls() }));
 				let t = send_op(j, sc, idx, op, s, &hook_count);
+				if op.may_spawn() {
+					hs(|h| h.spawn_tickets.push((idx, t.clone())));
+				}
 				if sc.probes && op.prio() != Prio::Normal {
 					hs(|h| h.probe_tickets.push((idx, op.prio(), t.clone())));
 				}
